@@ -192,28 +192,35 @@ theorem exponentPhase_noexp (c : Cfg) (b : Bytes) (fr : Option (List Nat)) (ex :
   · cases h
   · simp only [pure, Except.pure, Except.ok.injEq] at h; rw [← h]
 
-/-- **`parse_number` accepted the whole input with separators ⟹ it accepts the whole stripped input, as the same
-number** — any separator predicates with consistent re-scan (`Rescan`) on the integer and fraction component. -/
-theorem number_strip_gen (c : Cfg) (o : POpts) (hG : GenStrip c o) (hresI : Rescan c .integer)
-    (hresF : Rescan c .fraction) (s : List Nat) (hb256 : ∀ x ∈ s, x < 256) (b b' : Bytes) (hr : StripRel c s b b')
-    (hv : b.index ≤ s.length) (hic : b.ic = 0) (hfc : b.fc = 0)
-    (hstart : (∀ x, getPrev s b.index = some x → c.isDigit x = false ∧ c.isSep x = false) ∨
-      (∀ x, s[b.index]? = some x → c.isSep x = false))
-    (p neg fv : Bool) (n : Number) (cnt : Nat) (h : parseNumber c p o b neg fv = .ok (n, cnt))
-    (hcnt : cnt = s.length) :
-    ∃ n', parseNumber c p o b' neg fv = .ok (n', (nonSep c s).length) ∧ NumRel c n n' := by
-  have hsl : b.slc = s := hr.1
+/-- a successful `parse_number` that consumed the whole input: its decomposition, and the cursors after the integer
+and the fraction phase do not stand on a separator (otherwise nothing more would be consumed) -/
+theorem parseNumber_left2 (c : Cfg) (o : POpts) (hG : GenStrip c o) (s : List Nat) (b : Bytes) (hsl : b.slc = s)
+    (hv : b.index ≤ s.length) (p neg fv : Bool) (n : Number) (cnt : Nat)
+    (h : parseNumber c p o b neg fv = .ok (n, cnt)) (hcnt : cnt = s.length) :
+    ∃ dsI eI fp ep, Run c .integer c.mantissaRadix b eI dsI ∧
+      (c.iterContiguous .integer = true → eI.index - b.index = dsI.length ∧ NoSep c (slice b.slc b.index eI.index)) ∧
+      (c.requiredIntegerDigits && decide (dsI.length = 0)) = false ∧
+      FracLeft c o b eI (foldMantissa c.mantissaRadix 0 dsI) fp ∧
+      (decide (dsI.length + fp.nAfterDot = 0) || decide (Bytes.currentCount c fp.byte = 0)) = false ∧
+      exponentPhase c (fp.byte.firstIs o.exp (c.caseSensitiveExponent && c.feats.format)) fp.byte fp.fraction
+        fp.exponent = .ok ep ∧
+      cnt = ep.byte.index ∧
+      (if dsI.length + fp.nAfterDot ≤ u64Step c.feats c.mantissaRadix then
+        n = ⟨fp.mantissa, ep.exponent, neg, false, slice b.slc b.index eI.index, fp.fraction, ep.explicit⟩
+       else manyDigitsPhase c o neg ⟨false, b, eI, foldMantissa c.mantissaRadix 0 dsI, dsI.length,
+          slice b.slc b.index eI.index⟩ fp ep (dsI.length + fp.nAfterDot) (u64Step c.feats c.mantissaRadix)
+          ep.exponent ep.byte.index = .ok (n, cnt)) ∧
+      eI.slc = s ∧ eI.index ≤ s.length ∧ fp.byte.slc = s ∧ fp.byte.index ≤ s.length ∧
+      (∀ x, s[fp.byte.index]? = some x → c.isSep x = false) ∧ (∀ x, s[eI.index]? = some x → c.isSep x = false) := by
   have hvb : Bytes.Valid b := by unfold Bytes.Valid; rw [hsl]; exact hv
   obtain ⟨dsI, eI, fp, ep, hRI, hconI, hzI, hFL, hm, hep, hcntE, hres⟩ := parseNumber_left c o hG b hvb p neg fv n cnt h
   have heI : eI.slc = s := by rw [hRI.slc]; exact hsl
   have hvI : eI.index ≤ s.length := by have := hRI.valid; rw [hsl] at this; exact this
-  -- the fraction phase ends inside the buffer, on the same buffer
   have hfps : fp.byte.slc = s ∧ fp.byte.index ≤ s.length := by
     rcases hFL with ⟨rfl, _⟩ | ⟨dsF, eF, _, hRF, _, _, rfl⟩
     · exact ⟨heI, hvI⟩
     · refine ⟨by rw [hRF.slc]; exact heI, ?_⟩
       have := hRF.valid; simp only [heI] at this; exact this
-  -- it does not end on a separator: otherwise nothing more is consumed and the count falls short
   have hNF : ∀ x, s[fp.byte.index]? = some x → c.isSep x = false := by
     intro x hx
     cases hcs : c.isSep x with
@@ -231,6 +238,23 @@ theorem number_strip_gen (c : Cfg) (o : POpts) (hG : GenStrip c o) (hresI : Resc
     rcases hFL with ⟨rfl, _⟩ | ⟨dsF, eF, hdp, _, _, _, _⟩
     · exact hNF
     · intro x hx; rw [hsl] at hdp; rw [hdp] at hx; cases hx; exact hG.sepDp
+  exact ⟨dsI, eI, fp, ep, hRI, hconI, hzI, hFL, hm, hep, hcntE, hres, heI, hvI, hfps.1, hfps.2, hNF, hNI⟩
+
+/-- **`parse_number` accepted the whole input with separators ⟹ it accepts the whole stripped input, as the same
+number** — any separator predicates with consistent re-scan (`Rescan`) on the integer and fraction component. -/
+theorem number_strip_gen (c : Cfg) (o : POpts) (hG : GenStrip c o) (hresI : Rescan c .integer)
+    (hresF : Rescan c .fraction) (s : List Nat) (hb256 : ∀ x ∈ s, x < 256) (b b' : Bytes) (hr : StripRel c s b b')
+    (hv : b.index ≤ s.length) (hic : b.ic = 0) (hfc : b.fc = 0)
+    (hstart : (∀ x, getPrev s b.index = some x → c.isDigit x = false ∧ c.isSep x = false) ∨
+      (∀ x, s[b.index]? = some x → c.isSep x = true → peek c .integer b = .ok (some x, b)))
+    (p neg fv : Bool) (n : Number) (cnt : Nat) (h : parseNumber c p o b neg fv = .ok (n, cnt))
+    (hcnt : cnt = s.length) :
+    ∃ n', parseNumber c p o b' neg fv = .ok (n', (nonSep c s).length) ∧ NumRel c n n' := by
+  have hsl : b.slc = s := hr.1
+  have hvb : Bytes.Valid b := by unfold Bytes.Valid; rw [hsl]; exact hv
+  obtain ⟨dsI, eI, fp, ep, hRI, hconI, hzI, hFL, hm, hep, hcntE, hres, heI, hvI, hfps1, hfps2, hNF, hNI⟩ :=
+    parseNumber_left2 c o hG s b hsl hv p neg fv n cnt h hcnt
+  have hfps : fp.byte.slc = s ∧ fp.byte.index ≤ s.length := ⟨hfps1, hfps2⟩
   -- the stripped run: integer phase
   have hNIb : ∀ x, b.slc[eI.index]? = some x → c.isSep x = false := by rw [hsl]; exact hNI
   obtain ⟨hipR, hrI⟩ := integerPhase_right c o hG s b b' eI dsI hRI hr hNIb hzI
@@ -283,7 +307,27 @@ theorem number_strip_gen (c : Cfg) (o : POpts) (hG : GenStrip c o) (hresI : Resc
     have hokI : SliceOK c .integer (slice s b.index eI.index) := by
       have := sliceOK_of_run hresI hRI (fun hc => (hconI hc).2)
         (by intro hc; simp [Bytes.iterCount, hc, hic])
-        hvb (by rw [hsl]; exact hstart)
+        hvb (by
+          rw [hsl]
+          rcases hstart with h1 | h2
+          · exact Or.inl h1
+          · -- a separator under the start cursor that `peek` does not skip would end the integer run right there
+            right
+            intro x hx
+            cases hcs : c.isSep x with
+            | false => rfl
+            | true =>
+              exfalso
+              have hpk := h2 x hx hcs
+              have hrun : parseDigits c .integer c.mantissaRadix b = .ok ([], b) := by
+                unfold parseDigits
+                rw [parseDigitsLoop.eq_2]
+                simp only [hpk, bind, Except.bind, hG.sepDigM x hcs, pure, Except.pure]
+              have := hRI.run
+              rw [hrun] at this
+              simp only [Except.ok.injEq, Prod.mk.injEq] at this
+              have hx2 := hNI x (by rw [← this.2]; exact hx)
+              rw [hcs] at hx2; cases hx2)
         (by rw [hsl]; exact hnext eI _ rfl hNI (by intro x hx; exact hRI.stop x (by rw [hsl]; exact hx)))
       rw [hsl] at this; exact this
     have hfcI : eI.fc = 0 := by rw [hRI.eq]; simp [advS, hfc]
